@@ -223,6 +223,13 @@ def run_shard(spec, R):
                                 cls=cls, integer_valued=True)
         meta = root_meta(root, desc)
         root_arr = root.img.copy()
+        if time_kind == "date":
+            # relative times are date minus reference date (first date), decided independently
+            if series:
+                exp_t = [(d - root.date[0]).total_seconds() for d in root.date]
+            else:
+                exp_t = 0.0
+            R.check(root.time == exp_t, "relative_time_is_date_minus_reference", {"prog": n, "time": root.time, "expected": exp_t})
         p = Prov(root_arr, meta, [0] * dim, list(range(nt)) if series else None, series)
         extent = list(shape)
         cur = root
@@ -337,7 +344,8 @@ def run_shard(spec, R):
         base = None
         from datetime import datetime
         t0 = datetime(2022, 3, 4, 5, 6, 7)
-        dates = [t0 + timedelta(seconds=int(s)) for s in np.cumsum(rng.integers(1, 5000, size=count))]
+        dates = [t0 + timedelta(seconds=int(s), microseconds=int(rng.integers(0, 10**6)))
+                 for s in np.cumsum(rng.integers(1, int(rng.choice([5000, 400000])), size=count))]
         times = [float(t) for t in np.cumsum(rng.integers(1, 100, size=count))]
         offsets = [0.0] + [float(rng.choice([0.0, 0.0, 5.0, 12.5])) for _ in range(count - 1)]
         for k, im in enumerate(origs):
